@@ -27,6 +27,9 @@ def t_order(chk, ix):
     rules_order.check_match_protection(chk, ix)
     from .. import rules_generic
     rules_generic.check_async_glue(chk, ix)
+    # which step definition a step is bound to does not depend on earlier lookups (an undefined step stays undefined)
+    from .. import rules_matching
+    rules_matching.check_lookup_sequences(chk, ix)
 
 
 def run(chk, ix, tier):
